@@ -359,7 +359,8 @@ func (an *Analysis) handleStructFields(typ *types.Struct, ctx context) []StructF
 
 		// to simplify, we do not fully support embedded fields :
 		// we only accept structs, and we merge the fields
-		if field.Embedded() {
+		// (like encoding/json, an embedded struct with a JSON name is a regular field)
+		if jsonName, _, _ := strings.Cut(tag.Get("json"), ","); field.Embedded() && jsonName == "" {
 			if st, isStruct := fieldType.(*Struct); isStruct {
 				log.Printf("gomacro: embedded struct field %s will be flattened", field.Name())
 				out = append(out, st.Fields...)
